@@ -93,7 +93,7 @@ ListR(ns, a) == Res({"OK"}, {""}, "list", ns, a, none, none, "")
 ScriptR(s)   == Res({"OK"}, {""}, "script", {}, {}, s, none, "")
 CapsR(o)     == Res({"OK"}, {""}, "caps", {}, {}, none, o, "")
 
-ResultT == [cls : SUBSET {"OK", "NO", "BYE"}, code : SUBSET Codes,
+ResultT == [cls : SUBSET {"OK", "NO", "BYE", "NONE"}, code : SUBSET Codes,
             kind : {"plain", "list", "script", "caps"},
             names : SUBSET Names, act : SUBSET Names,
             body : Contents \cup {none}, owner : Users \cup {none},
@@ -103,7 +103,7 @@ ASSUME Latitude \subseteq AltTags
 
 PreAuthCmds == {"Capability", "Noop", "Logout", "StartTLS", "Auth", "AuthJunk"}
 ScriptCmds  == {"Put", "Get", "List", "SetActive", "Delete", "Rename", "Check", "HaveSpace"}
-AllCmds     == PreAuthCmds \cup ScriptCmds \cup {"Unauth", "Unknown", "Init"}
+AllCmds     == PreAuthCmds \cup ScriptCmds \cup {"Unauth", "Unknown", "Drop", "Init"}
 
 Did(c, cmd, a, b, r) == last' = [conn |-> c, cmd |-> cmd, a |-> a, b |-> b, res |-> r]
 
@@ -130,6 +130,16 @@ Logout(c, r) == /\ r \in LogoutRes(c)
                 /\ Did(c, "Logout", none, none, r)
                 /\ auth' = [auth EXCEPT ![c] = none]
                 /\ UNCHANGED <<store, active>>
+
+\* The client goes away in the middle of a command (inside the command line,
+\* right after a literal marker, or inside literal data): the incomplete
+\* command does nothing, the server need not say anything ("NONE"), the
+\* connection is gone (the binding opens a fresh one under the same name).
+DropRes(c) == {Plain({"NONE", "NO", "BYE"}, {"ANY"})}
+Drop(c, r) == /\ r \in DropRes(c)
+              /\ Did(c, "Drop", none, none, r)
+              /\ auth' = [auth EXCEPT ![c] = none]
+              /\ UNCHANGED <<store, active>>
 
 \* no TLS is configured in the binding: STARTTLS cannot succeed
 StartTLSRes(c) == {NoAny}
@@ -253,6 +263,7 @@ HaveSpace(c, n, sz, r) == r \in HaveSpaceRes(c, n, sz) /\ Did(c, "HaveSpace", n,
 CapabilityAll == {CapsR(o) : o \in Users \cup {none}}
 NoopAll       == {Ok, OkCode("TAG")}
 LogoutAll     == {Plain({"OK", "BYE"}, {"ANY"})}
+DropAll       == {Plain({"NONE", "NO", "BYE"}, {"ANY"})}
 StartTLSAll   == {NoAny}
 AuthAll       == {Ok, NoAny, Alt(NoAny, "AuthzRefused"), Alt(Ok, "AuthzAsAuthcid")}
 AuthJunkAll   == {NoAny}
@@ -272,6 +283,7 @@ Universes ==
         /\ CapabilityRes(c) \subseteq CapabilityAll
         /\ \A t \in {"plain", "tagged"} : NoopRes(c, t) \subseteq NoopAll
         /\ LogoutRes(c) \subseteq LogoutAll /\ StartTLSRes(c) \subseteq StartTLSAll
+        /\ DropRes(c) \subseteq DropAll
         /\ \A u \in Users, how \in {"good", "badpw", "authz"} : AuthRes(c, u, how) \subseteq AuthAll
         /\ UnauthRes(c) \subseteq UnauthAll /\ UnknownRes(c) \subseteq UnknownAll
         /\ ListRes(c) \subseteq ListAll
@@ -290,6 +302,7 @@ Next ==
         \/ \E r \in CapabilityAll : Capability(c, r)
         \/ \E t \in {"plain", "tagged"} : \E r \in NoopAll : Noop(c, t, r)
         \/ \E r \in LogoutAll : Logout(c, r)
+        \/ \E r \in DropAll : Drop(c, r)
         \/ \E r \in StartTLSAll : StartTLS(c, r)
         \/ \E u \in AuthUsers(c), how \in AuthHows(c) : \E r \in AuthAll : Auth(c, u, how, r)
         \/ \E k \in JunkKinds(c) : \E r \in AuthJunkAll : AuthJunk(c, k, r)
@@ -329,9 +342,14 @@ ListExact == (last.cmd = "List" /\ auth[last.conn] # none) =>
 
 \* nothing but the five pre-authentication commands has any effect on an
 \* unauthenticated connection, and every such command is refused
-Gate == [][(auth[last'.conn] = none /\ last'.cmd \notin PreAuthCmds)
+Gate == [][(auth[last'.conn] = none /\ last'.cmd \notin PreAuthCmds \cup {"Drop"})
              => (UNCHANGED base /\ last'.res.cls \subseteq {"NO", "BYE"}
                  /\ last'.res.kind = "plain")]_vars
+
+\* an incomplete command does nothing
+DropDoesNothing == [][last'.cmd = "Drop" =>
+                        (UNCHANGED <<store, active>> /\ auth'[last'.conn] = none
+                         /\ \A c \in Conns \ {last'.conn} : auth'[c] = auth[c])]_vars
 
 \* only a successful AUTHENTICATE turns an unauthenticated connection into an
 \* authenticated one
